@@ -1,7 +1,7 @@
 (* C05 - Closures keep the local values they were created with.              *)
 (* Statements only; the proofs are in Proofs/Closures.v and Proofs/EvalRel.v. *)
 From TL Require Import Base.Base Model.Reader Model.Printer Model.Store Model.Eval Model.Init.
-From TL Require Import Proofs.Closures Proofs.EvalRel.
+From TL Require Import Proofs.Closures Proofs.Capture Proofs.EvalRel.
 Local Open Scope list_scope.
 
 (* The capture walk of `lambda`, one symbol occurrence at a time (the walk   *)
@@ -57,6 +57,27 @@ Proof.
   pose proof (I (key_of_id id)) as X. unfold cnt in X; simpl in X. lia.
 Qed.
 
+(* The WHOLE body (as it comes from program text: all symbols interned): the  *)
+(* walk succeeds and returns the body with every capturable variable - locally  *)
+(* bound at creation and not a parameter - replaced at EVERY occurrence (nested  *)
+(* lists, dotted tails, under all five quote marks) by one cell per variable,    *)
+(* and nothing else changed; no variable's own bindings are touched by it.       *)
+Theorem C05_whole_body : forall s excl body,
+  only_syms body = true ->
+  exists caps s2,
+    capture excl [] body s = (Ok (subst caps body, caps), s2) /\
+    name_agree s s2 /\ caps_ok s excl caps /\ closed s excl caps body.
+Proof. exact capture_whole_body. Qed.
+Theorem C05_not_capturable_untouched : forall s excl caps n,
+  caps_ok s excl caps -> capturable s excl n = false -> subst caps (Sym n) = Sym n.
+Proof. exact not_capturable_untouched. Qed.
+Theorem C05_capturable_gets_one_cell : forall s excl caps n,
+  caps_ok s excl caps -> closed s excl caps (Sym n) -> capturable s excl n = true ->
+  exists id, subst caps (Sym n) = Cell n id (key_of_name n).
+Proof. exact capturable_replaced_by_its_cell. Qed.
+
+Print Assumptions C05_whole_body. Print Assumptions C05_not_capturable_untouched.
+Print Assumptions C05_capturable_gets_one_cell.
 Print Assumptions C05_free_variable_untouched. Print Assumptions C05_parameter_untouched.
 Print Assumptions C05_captures_current_value. Print Assumptions C05_one_cell_per_variable.
 Print Assumptions C05_cell_ignores_caller_bindings. Print Assumptions C05_cell_key_is_private.
